@@ -15,6 +15,9 @@ PROP = "C16"
 PARAMS = {
     4: (np.array([[1.0, 0.2], [0.8, 0.4], [0.3, 1.0], [0.5, 0.9]]), np.array([[1.5, 0.3], [0.3, 1.0]])),
     5: (np.array([[1.0, 0.2], [0.8, 0.4], [0.3, 1.0], [0.5, 0.9], [0.7, 0.7]]), np.array([[1.2, 0.0], [0.0, 0.9]])),
+    # hard disjoint communities with a diagonal affinity: every cross-community pair has Poisson mean exactly 0 (numerical underflow
+    # guard of the weight draw), same-community pairs and all triples have positive means
+    "hard4": (np.array([[1.0, 0.0], [0.0, 1.0], [1.0, 0.0], [0.0, 1.0]]), np.array([[1.0, 0.0], [0.0, 1.0]])),
 }
 
 
@@ -291,6 +294,12 @@ def items(tier):
                 continue
             yield ("init", (labels, es, burn, inter, ns, 4))
     yield ("init", (("a", "b", "c", "d", "e"), (("a", "b"), ("c", "d", "e")), 1, 1, 1, 5))
+    # zero-affinity hyperedges (Poisson mean 0 before the underflow guard): they must still come out with a positive integer weight
+    for es in (((2, 5), (7, 11)), ((2, 5), (5, 7)), ((2, 11), (5, 7, 11)), ((2, 5), (2, 7), (7, 11)), ((2, 7), (5, 11))):
+        for burn, inter, ns in ((0, 0, 1), (0, 1, 1)):
+            if len(es) == 3 and inter:
+                continue
+            yield ("init", (labels, es, burn, inter, ns, "hard4"))
     # two consecutive samples from one generator, with chain moves in between (state carried from one sample to the next)
     for es in (((2, 5), (5, 7, 11)), ((2, 5), (7, 11)), ((2, 5, 7), (7, 11))):
         if tier == "quick" and es == ((2, 5), (7, 11)):
